@@ -34,6 +34,31 @@ CFG_KEYS = ("coarse_enough", "direct_coarse", "max_levels", "npre", "npost", "nc
 
 def f32(x): return F(struct.unpack("f", struct.pack("f", float(x)))[0])
 
+C23 = F(2.0 / 3)          # static_cast<scalar_type>(2.0/3) of smoothed_aggregation.hpp, scalar_type = vq::Q
+NEPS = 64                 # per-level eps_strong^2 values handed to the policy (more than any hierarchy has levels)
+
+def policy_tokens(kind, eps_strong, relax, scale, bs, do_trunc="-", eps_trunc="-"):
+    """tokens of the coarsening policy of Coarsen.coarsen_step (op amgfull); float parameters are converted
+    with the C++ expressions of the code.  eps_strong: a float value (rational string)"""
+    eps = F(eps_strong)
+    def eps2_list():
+        out = []; e = eps
+        for _ in range(NEPS):
+            out.append(gen.f32_mul(e, e)); e = gen.f32(e / 2)     # prm.aggr.eps_strong *= 0.5 (float)
+        return "%d %s" % (NEPS, " ".join(fmt_q(x) for x in out))
+    if kind == "aggregation":
+        return "%s %d %s" % (fmt_q(gen.f32_mul(eps, eps)), bs, scale)
+    if kind == "smoothed_aggregation":
+        rl = F(1) if relax == "-" else f32(F(relax))
+        return "%s %d %s %s" % (eps2_list(), bs, fmt_q(rl), fmt_q(C23))
+    if kind == "smoothed_aggr_emin":
+        return "%s %d" % (eps2_list(), bs)
+    if kind == "ruge_stuben":
+        et = f32(F(1, 5)) if eps_trunc == "-" else f32(F(eps_trunc))
+        dt = 1 if do_trunc in ("-", "1") else 0
+        return "%s %s %d" % (fmt_q(eps), fmt_q(et), dt)
+    raise ValueError(kind)
+
 def driver_of(variant, b):
     if b == 3: return "amgb_b3"
     if b == 1: return "amgb_b1"
@@ -117,6 +142,21 @@ class BCase:
                          " ".join(str(cf[k]) for k in CFG_KEYS),
                          self.rt_type if self.variant == "rt" else "-", cp["eps_strong"], cp["relax"], cp["over_interp"], str(cp["block_size"]),
                          self.damping, ns, fmt_bcrs(self.n, self.n, self.brows), self.script_tokens()])
+    def full_eligible(self):
+        """hierarchies the coarsening MODEL can build by itself (op amgfull): no near-null space;
+        scalar value type through any class / wrapper, or block values through coarsening::as_scalar"""
+        if self.ncols != 0 or self.kind() == "ruge_stuben": return False
+        if self.b == 1: return True
+        return self.variant in ("as_agg", "as_sa")
+    def full_line(self):
+        cf = self.cfg; N = self.n * self.b
+        sc = []
+        for c in self.script:
+            if c[0] == "dump": sc.append("dump")
+            elif c[0] in ("rebuild", "rebuildp"): sc.append("rebuild " + fmt_crs(N, N, expand(c[1], self.b)))
+        return " ".join([self.cid + ".full", "amgfull", self.kind(), str(self.b), str(cf["coarse_enough"] * self.b), str(cf["direct_coarse"]), str(cf["max_levels"]),
+                         policy_tokens(self.kind(), self.cprm["eps_strong"], self.cprm["relax"], self.scale(), self.cprm["block_size"]),
+                         fmt_crs(N, N, expand(self.brows, self.b)), str(len(sc)), " ".join(sc)])
     def model_line(self, ts):
         cf = self.cfg; N = self.n * self.b
         toks = [str(len(ts))]
@@ -166,7 +206,7 @@ def perturb(r, brows, b, pure_scale=False):
 
 def make_cases(tier, seed):
     r = random.Random(seed * 1000 + 303)
-    N = 64 if tier == "quick" else 420
+    N = 64 if tier == "quick" else 320
     cases = []
     combos = [("agg", "-"), ("as_agg", "-"), ("sa", "-"), ("as_sa", "-"),
               ("rt", "aggregation"), ("rt", "smoothed_aggregation"), ("rt", "smoothed_aggr_emin"), ("rt", "aggregation")]
@@ -174,7 +214,7 @@ def make_cases(tier, seed):
         b = r.choice([2, 2, 2, 2, 1]) if tier == "quick" else r.choice([2, 2, 2, 3, 3, 1])
         variant, rt_type = combos[k % len(combos)]
         if variant == "rt" and k % 41 == 40: rt_type = "ruge_stuben"
-        n = r.choice([2, 3, 4, 5, 6, 8, 10] if tier == "quick" else [2, 3, 4, 6, 8, 10, 12, 16])
+        n = r.choice([2, 3, 4, 5, 6, 8, 10] if tier == "quick" else ([2, 3, 4, 5, 6, 8] if b == 3 else [2, 3, 4, 6, 8, 10, 12, 16]))
         rows = gen.spd_block(r, b, n, incomplete=(r.random() < 0.6), kron=(r.random() < 0.2))
         brows = to_blocks(rows, b)
         ctor = "copy"
@@ -214,6 +254,9 @@ def make_cases(tier, seed):
             # an aggregate of m unknowns becomes nullspace.cols coarse unknowns: with cols > block_size the hierarchy
             # can stall at a fixed size (finding C03-nullspace-level-size-stall): bound the depth
             if ncols > cprm["block_size"] and cfg["max_levels"] > 4: cfg["max_levels"] = r.choice([2, 3, 4])
+            # QR<double> puts 53-bit mantissas into P: keep the exact cycles affordable
+            cfg.update(npre=min(cfg["npre"], 1), npost=min(cfg["npost"], 1), ncycle=1, pre_cycles=min(cfg["pre_cycles"], 1))
+            if n * b > 12: cfg.update(max_levels=min(cfg["max_levels"], 2), npre=0)
         relax = RELAX[(k // 3) % len(RELAX)]
         if b != 2 and relax in ("gauss_seidel", "ilu0"): relax = "spai0"    # the b = 1, 3 drivers instantiate two relaxations
         damping = r.choice(["-", "1/2", "3/4", "5/8"]) if relax in ("damped_jacobi", "ilu0") else "-"
@@ -240,21 +283,46 @@ def fail(c, theorem, impl=None, model=None, **kw):
              scalar_route=c.scalar_route(), nullspace_cols=c.ncols, block_size=c.cprm["block_size"], kind=c.kind()))
     d.update(kw); return d
 
+def run_impl(ctx, cases, env=None):
+    """implementation outputs; a crashing case kills its shard (the runner marks the first unanswered case
+    CRASH): the unanswered rest is run again until every case has an answer of its own"""
+    impl = {}; pending = list(cases)
+    for _ in range(8):
+        by_drv = {}
+        for c in pending: by_drv.setdefault(driver_of(c.variant, c.b), []).append(c)
+        for d, cs in by_drv.items():
+            impl.update(ctx["run_driver"](ctx["cpp"][d], [c.impl_line() for c in cs], env_extra=env, timeout=1500))
+        pending = [c for c in pending if impl.get(c.cid) is None]
+        if not pending: break
+    return impl
+
+def diagnose_crash(ctx, c, env=None):
+    """why did the constructor crash?  Same case with direct_coarse = 0 and a lone dump: a level with 0 rows
+    means every aggregate was removed (remove_small_aggregates) and the direct solver was built for a
+    0 x 0 matrix (finding C03-empty-coarse-level-direct-solver-crash)"""
+    import copy
+    c2 = copy.copy(c); c2.cfg = dict(c.cfg, direct_coarse=0); c2.script = [("dump",)]; c2.cid = c.cid + ".diag"
+    o = ctx["run_driver"](ctx["cpp"][driver_of(c.variant, c.b)], [c2.impl_line()], env_extra=env, timeout=600).get(c2.cid)
+    if not o or not o.startswith("D "): return dict(diagnosis="unknown", rerun=(o or "")[:200])
+    lv = parse_dump_raw(o)[0]
+    sizes = [int(l[1][1:].split()[0]) for l in lv if l[1] is not None]
+    return dict(diagnosis="empty-coarse-level" if 0 in sizes else "unknown", level_sizes=sizes)
+
 def run_cases(ctx, cases, model_exe, env=None):
     """returns the list of failure records"""
     fails = []
-    by_drv = {}
-    for c in cases: by_drv.setdefault(driver_of(c.variant, c.b), []).append(c)
-    impl = {}
-    for d, cs in by_drv.items():
-        impl.update(ctx["run_driver"](ctx["cpp"][d], [c.impl_line() for c in cs], env_extra=env, timeout=1500))
+    impl = run_impl(ctx, cases, env)
     account(ctx, [c.impl_line() for c in cases], impl)
     st = ctx["stats"]
-    mlines = []; olines = []; owhat = {}; segs_of = {}
+    mlines = []; olines = []; owhat = {}; segs_of = {}; flines = []
     for c in cases:
         o = impl.get(c.cid)
+        if c.full_eligible() and o is not None and not o.startswith(("CRASH", "UNSUPPORTED")):
+            flines.append(c.full_line())
         if o is None or o.startswith("CRASH"):
-            fails.append(fail(c, "implementation crashed or gave no answer (amgb driver)", impl=o)); continue
+            f = fail(c, "implementation crashed or gave no answer (amgb driver)", impl=o)
+            if o is not None and c.cfg["direct_coarse"]: f["block"].update(diagnose_crash(ctx, c, env))
+            fails.append(f); continue
         if c.variant == "rt" and c.rt_type == "ruge_stuben":
             # coarsening_is_supported<block backend, ruge_stuben> = false: the wrapper must refuse
             st["oracle_checks"] += 1
@@ -342,6 +410,28 @@ def run_cases(ctx, cases, model_exe, env=None):
             step, cmd = what[k] if k < len(what) else (-1, "?")
             fails.append(fail(c, "correspondence amgb(%s,%s) script step %d (%s): implementation vs Amg.v hierarchy model on the expanded matrices" % (c.variant, c.kind(), step, cmd),
                               impl=want[k] if k < len(want) else None, model=got[k] if k < len(got) else None, segment=step, command=cmd))
+    # 1b. hierarchies built entirely inside the model (AmgFull.amg_init_full; block values: through as_scalar_prep)
+    fres = ctx["run_driver"](model_exe, flines, timeout=1500)
+    for c in cases:
+        fid = c.cid + ".full"
+        if not any(l.startswith(fid + " ") for l in flines): continue
+        st["oracle_checks"] += 1
+        st.setdefault("full_model_hierarchies", 0); st["full_model_hierarchies"] += 1
+        o = impl.get(c.cid); m = fres.get(fid)
+        if o.startswith("EXC"):
+            # the constructor threw (as_scalar: P not divisible into blocks; or a later stage the hierarchy
+            # model does not cover): only the converse is an error
+            if m is not None and m.startswith("EXC"): st.setdefault("full_model_exc_agree", 0); st["full_model_exc_agree"] += 1
+            continue
+        segs = segs_of.get(c.cid)
+        if segs is None: continue
+        want = [segs[i] for i, cmd in enumerate(c.script) if cmd[0] in ("dump", "rebuild", "rebuildp")]
+        got = (m or "").split(" ; ")
+        if want != got:
+            st["mismatches"] += 1
+            k = next((i for i in range(max(len(want), len(got))) if i >= len(want) or i >= len(got) or want[i] != got[i]), 0)
+            fails.append(fail(c, "correspondence amgb(%s,%s): implementation's hierarchy vs the hierarchy built entirely inside the model (AmgFull.amg_init_full%s), dump/rebuild step %d" % (c.variant, c.kind(), ", as_scalar_prep" if c.b > 1 else "", k),
+                              impl=want[k] if k < len(want) else None, model=got[k] if k < len(got) else None, segment=k))
     # 2. the extracted statement on the implementation's dumps
     res = ctx["run_driver"](model_exe, olines, timeout=1500)
     for l in olines:
